@@ -5,6 +5,7 @@ use std::panic::{catch_unwind, AssertUnwindSafe};
 
 mod c10;
 mod c17;
+mod lang;
 
 fn cps_to_string(v: &Value) -> String {
     match v {
@@ -35,6 +36,10 @@ fn main() {
         let res = catch_unwind(AssertUnwindSafe(|| match prop.as_str() {
             "c10" => c10::run(&case),
             "c17lex" => c17::lex(&case),
+            "lex" => lang::lex(&case),
+            "latin1file" => lang::latin1_file(&case),
+            "render" => lang::render(&case),
+            "intern" => lang::intern(&case),
             _ => json!({"error": "unknown property"}),
         }));
         let out = match res {
